@@ -168,6 +168,8 @@ Atomic<'a, ItemType, BUFFER_SIZE, MAX_STREAMS> {
     #[inline(always)]
     fn send_derived(&self, arc_item: &Arc<ItemType>) -> bool {
         for stream_id in self.streams_manager.used_streams() {
+            #[cfg(feature = "verif")]
+            crate::verif::yield_value("used_read", stream_id as *const u32 as usize, || *stream_id as u64);
             if *stream_id == u32::MAX {
                 break
             }
@@ -260,4 +262,15 @@ Atomic<'static, ItemType, BUFFER_SIZE, MAX_STREAMS> {
     const BUFFER_SIZE: usize = BUFFER_SIZE;
     type ItemType            = ItemType;
     type DerivedItemType     = Arc<ItemType>;
+}
+
+/// verification hooks: gives the external harness access to the components (to name their shared cells)
+#[cfg(feature = "verif")]
+impl<'a, ItemType:          Send + Sync + Debug + Default + 'a,
+         const BUFFER_SIZE: usize,
+         const MAX_STREAMS: usize>
+Atomic<'a, ItemType, BUFFER_SIZE, MAX_STREAMS> {
+    pub fn verif_parts(&self) -> (&StreamsManagerBase<MAX_STREAMS>, &[AtomicMove<Arc<ItemType>, BUFFER_SIZE>; MAX_STREAMS]) {
+        (&self.streams_manager, &self.channels)
+    }
 }
